@@ -35,7 +35,7 @@ theorem trunc_dec (env : Env) (hE : EnvOk env) :
       simp only [enc, length_leBytes] at hk
       have hl : ((leBytes w n).take k).length < w := by rw [length_take_lt _ _ (by simpa using hk)]; exact hk
       rcases h with h | h | h | h | h
-      · subst h; simp [dec, enc, readN_short _ _ hl]
+      · obtain ⟨h, _⟩ := h; subst h; simp [dec, enc, readN_short _ _ hl]
       · obtain ⟨rfl, rfl, _⟩ := h; simp [dec, enc, Facts.szBool, readN_short _ _ hl]
       · obtain ⟨rfl, rfl⟩ := h; simp [dec, enc, Facts.szFloat32, readN_short _ _ hl]
       · obtain ⟨rfl, rfl⟩ := h; simp [dec, enc, Facts.szFloat64, readN_short _ _ hl]
@@ -67,7 +67,7 @@ theorem trunc_dec (env : Env) (hE : EnvOk env) :
       match f, hf with
       | f+1, hf =>
       simp only [wt] at h
-      obtain ⟨t, rfl, hl, hw⟩ := h
+      obtain ⟨t, rfl, hl, hw, hp⟩ := h
       simp only [rank] at hf
       have hf' : rankList vs < f := by omega
       simp only [enc, List.length_append, length_leBytes] at hk
@@ -82,7 +82,7 @@ theorem trunc_dec (env : Env) (hE : EnvOk env) :
         cases hfs : fixedSize t with
         | none =>
           simp only
-          rw [trunc_decN env hE vs t f (k - 4) hw hf' hk']
+          rw [trunc_decN env hE vs t f (k - 4) hw hp hf' hk']
           simp
         | some s =>
           simp only
@@ -170,10 +170,10 @@ theorem trunc_dec (env : Env) (hE : EnvOk env) :
           simp
 
 theorem trunc_decN (env : Env) (hE : EnvOk env) :
-    (vs : List Val) → ∀ (t : Ty) (f k : Nat), wtList env t vs → rankList vs < f → k < (encList vs).length →
+    (vs : List Val) → ∀ (t : Ty) (f k : Nat), wtList env t vs → Progress vs → rankList vs < f → k < (encList vs).length →
       decN (dec f env true t) vs.length ((encList vs).take k) = .err
-  | [], _, _, k, _, _, hk => by simp [encList] at hk
-  | v :: vs, t, f, k, h, hf, hk => by
+  | [], _, _, k, _, _, _, hk => by simp [encList] at hk
+  | v :: vs, t, f, k, h, hp, hf, hk => by
       simp only [wtList] at h
       simp only [rankList] at hf
       have h1 : rank v < f := by omega
@@ -184,7 +184,13 @@ theorem trunc_decN (env : Env) (hE : EnvOk env) :
       · rw [take_append_lt _ _ k (by omega), trunc_dec env hE v t f k h.1 h1 hlt]; simp
       · rw [take_append_ge _ _ k (by omega), dec_enc env hE v t true f _ h.1 h1]
         simp only [Res.ok_bind]
-        rw [trunc_decN env hE vs t f (k - (enc v).length) h.2 h2 (by omega)]; simp
+        have hg : ¬ (((encList vs).take (k - (enc v).length)).length
+            = (enc v ++ (encList vs).take (k - (enc v).length)).length ∧ loopSlack ≤ vs.length) := by
+          intro ⟨hl, hs⟩
+          simp only [List.length_append] at hl
+          exact hp.head_guard ⟨by omega, hs⟩
+        simp only [hg, if_false]
+        rw [trunc_decN env hE vs t f (k - (enc v).length) h.2 hp.tail h2 (by omega)]; simp
 
 theorem trunc_decEntries (env : Env) (hE : EnvOk env) :
     (kvs : List (Val × Val)) → ∀ (kt t : Ty) (f k : Nat) (acc : List (Val × Val)),
